@@ -322,6 +322,8 @@ def run_unit_symbolic(unit, mode, deadline=None):
         it = Interp(ctx)
         S = SymS(ctx)
         inp = unit.inputs(S)
+        if unit.env is not None:
+            ctx.env = unit.env() if isinstance(unit.env, type) else unit.env
         if unit.globals_init is not None:
             for k, v in unit.globals_init(S).items():
                 ctx.globals[k] = v
